@@ -426,7 +426,7 @@ def rule_chunking(rep, tier):
     rid = "C07.D5"
     rep.rule(rid, "chunked and in-place incremental AEAD equals the one-shot specification result (bounded shapes)")
     prep = modes.prepare(tier, cfgs=[repo.Config("c64"), repo.Config("c32"), repo.Config("direct")] if tier == "quick" else None)
-    shapes = [(0, 1), (1, 9), (8, 17), (9, 33)] if tier == "quick" else [(a, n) for a in (0, 1, 9, 17) for n in (0, 1, 7, 8, 9, 16, 17, 33, 40)]
+    shapes = [(0, 1), (1, 9), (8, 17), (9, 33)] if tier == "quick" else [(a, n) for a in (0, 1, 9, 17) for n in tuple(range(0, 35)) + (40, 63, 64, 65, 129)]
     cases = []
     for js, cname, layout, maxs, units in prep:
         if cname not in rep.configs:
